@@ -218,7 +218,11 @@ def install(ctx, repo, probes):
                 want = same if op == "eq" else not same
             else:
                 ra, rb = rough(mode, a), rough(mode, b)
-                if not ex and ra != rb and close(ra, rb, False):
+                if not ex and close(ra, rb, False):
+                    # decimal values within float noise of each other (or
+                    # of equal length spelled in different units: 0.1 s
+                    # beside P1D / PT24H): the order of two such floats is
+                    # not determined
                     return
                 want = {"lt": ra < rb, "le": ra <= rb, "gt": ra > rb,
                         "ge": ra >= rb}[op]
@@ -341,6 +345,11 @@ def run_case(ctx, repo, case):
         for x in ds:
             hash(x)
             for y in ds:
+                # whatever the library calls equal must hash equally
+                ctx.ev("law")
+                if (x == y) is True and hash(x) != hash(y):
+                    ctx.violation("law.eq-hash", "%r == %r but their hashes "
+                                  "differ" % (R.dur_key(x), R.dur_key(y)))
                 x == y
                 x != y
                 x < y
@@ -403,6 +412,26 @@ RESPELLED = [
      {"hours": 191}, {"weeks": 1, "hours": 23}],
     [{"weeks": 5, "months": 1, "days": -1}, {"months": 1, "days": 34},
      {"months": 1, "weeks": 4, "hours": 144}],
+    # a full minute of seconds / hour of minutes / day of hours written in
+    # the lower unit (23:59:60 is a whole day)
+    [{"hours": 23, "minutes": 59, "seconds": 60}, {"days": 1}, {"hours": 24},
+     {"minutes": 1440}],
+    [{"days": 2, "hours": 23, "minutes": 59, "seconds": 60}, {"days": 3},
+     {"hours": 72}, {"days": 2, "hours": 24}],
+    [{"hours": 47, "minutes": 59, "seconds": 60}, {"days": 2},
+     {"days": 1, "hours": 23, "minutes": 60}],
+    [{"minutes": 59, "seconds": 60}, {"hours": 1}, {"seconds": 3600}],
+    [{"hours": -23, "minutes": -59, "seconds": -60}, {"days": -1},
+     {"hours": -24}],
+    [{"months": 1, "hours": 23, "minutes": 59, "seconds": 60},
+     {"months": 1, "days": 1}, {"months": 1, "hours": 24}],
+    # decimal seconds beside whole days spelled in different units
+    [{"days": 1, "seconds": 0.1}, {"hours": 24, "seconds": 0.1},
+     {"minutes": 1440, "seconds": 0.1}, {"days": 1, "seconds": 0.1}],
+    [{"days": 3, "seconds": 0.3}, {"hours": 72, "seconds": 0.3},
+     {"days": 2, "hours": 24, "seconds": 0.3}],
+    [{"weeks": 1}, {"days": 7, "seconds": 0.7}, {"hours": 168,
+                                                  "seconds": 0.7}],
     # neighbours of a week-form duration within the same day (either side)
     [{"weeks": 1}, {"days": 7, "hours": 1}, {"days": 7, "seconds": 1},
      {"days": 6, "hours": 23}],
